@@ -12,7 +12,8 @@
 (*                                                                         *)
 (* The model has a chain of nodes 1..Depth on file (node d+1 is the only   *)
 (* child of node d), versions 0..MaxVer of the top node, a snapshot that   *)
-(* pins version 0, and the mutator.  Memory nodes are records              *)
+(* pins version 0, and the mutator, which overwrites the key at any depth  *)
+(* (path copying).  Memory nodes are records                               *)
 (*   [slot   - the file node it is a copy of,                              *)
 (*    kid    - the memory node its child location points to (0 = not       *)
 (*             fetched),                                                   *)
@@ -69,17 +70,28 @@ FetchKid(v, n) ==
   /\ mem' = Append([mem EXCEPT ![n].kid = Len(mem) + 1], Node(mem[n].slot + 1))
   /\ UNCHANGED <<root, cur, snapOpen, mainOpen, released>>
 
-(* the mutator overwrites the top key: the top node of the newest version is
-   replaced by a copy (child location copied as it is) and marked reclaimable
-   with the mark of the version it belonged to *)
-Overwrite ==
-  /\ mainOpen /\ cur < MaxVer /\ root[cur] # 0 /\ Len(mem) < MaxNodes
-  /\ LET old == root[cur]
-         new == Len(mem) + 1
-     IN /\ mem' = Append([mem EXCEPT ![old].mark = cur,
-                                     ![old].late = FlagLateLoads /\ mem[old].kid = 0 /\ mem[old].slot < Depth],
-                         [Node(1) EXCEPT !.kid = mem[old].kid])
-        /\ root' = [root EXCEPT ![cur + 1] = new]
+(* the mutator overwrites the key at depth d: the nodes 1..d on the path of
+   the newest version (the walk down has fetched them) are replaced by copies
+   and marked reclaimable with the mark of the version they belonged to; copy
+   j < d points to copy j+1, copy d gets the child location of the old node d
+   as it is *)
+RECURSIVE PathNode(_, _, _)
+PathNode(n, j, m) == IF j = 1 THEN n ELSE PathNode(m[n].kid, j - 1, m)   \* j-th node below (and including) n
+PathLoaded(d) == Cardinality(Reach(cur)) >= d
+Overwrite(d) ==
+  /\ mainOpen /\ cur < MaxVer /\ d \in 1..Depth /\ root[cur] # 0 /\ PathLoaded(d)
+  /\ Len(mem) + d <= MaxNodes
+  /\ LET base == Len(mem)
+         old(j) == PathNode(root[cur], j, mem)
+         marked == [n \in Ids |->
+                      IF \E j \in 1..d : old(j) = n
+                      THEN [mem[n] EXCEPT !.mark = cur,
+                                          !.late = FlagLateLoads /\ mem[n].kid = 0 /\ mem[n].slot < Depth]
+                      ELSE mem[n]]
+         copies == [j \in 1..d |->
+                      [Node(j) EXCEPT !.kid = IF j < d THEN base + j + 1 ELSE mem[old(d)].kid]]
+     IN /\ mem' = marked \o copies
+        /\ root' = [root EXCEPT ![cur + 1] = base + 1]
         /\ cur' = cur + 1
   /\ UNCHANGED <<snapOpen, mainOpen, released>>
 
@@ -110,7 +122,7 @@ CloseSnap == /\ snapOpen /\ snapOpen' = FALSE /\ UNCHANGED <<mem, root, cur, mai
 CloseMain == /\ mainOpen /\ mainOpen' = FALSE /\ UNCHANGED <<mem, root, cur, snapOpen, released>>
 
 Next == \/ \E v \in 0..MaxVer : FetchRoot(v) \/ Release(v) \/ (\E n \in Ids : FetchKid(v, n))
-        \/ Overwrite \/ CloseSnap \/ CloseMain
+        \/ (\E d \in 1..Depth : Overwrite(d)) \/ CloseSnap \/ CloseMain
 Spec == Init /\ [][Next]_vars
 
 (* ------------------------------ properties ---------------------------- *)
